@@ -21,7 +21,7 @@ try:
     for p in props:
         r = subprocess.run([sys.executable, os.path.join(VERIF, 'tools', 'check.py'), p, '--tier', tier], capture_output=True, text=True, env=env, cwd=VERIF)
         lines = [l for l in r.stdout.splitlines() if l.startswith(('VIOLATION', 'OK ', 'KNOWN', '  ('))]
-        print('%s rc=%d  %s' % (p, r.returncode, ' | '.join(l[:230] for l in lines[:4])))
+        print('%s rc=%d  %s' % (p, r.returncode, ' | '.join(l[:230] for l in lines[:14])))
 finally:
     shutil.rmtree(scratch, ignore_errors=True)
     # the generated Lean files must describe /repo again
